@@ -18,6 +18,7 @@ import Stfs.Proofs.Spelling
 import Stfs.Proofs.IndexLemmas
 import Stfs.Model.Fs
 import Stfs.Props.C01
+import Stfs.Proofs.Scan
 namespace Stfs.C17
 open Stfs Stfs.Idx
 
@@ -237,6 +238,82 @@ theorem upsert_row_present (p : Idx) (r : Row) (init : Bool) :
       simp only [setByKey, List.mem_map]
       exact ⟨y, hy, by simp only [Bool.and_eq_true, beq_iff_eq] at hyk; simp [hyk.1, hyk.2]⟩
     · exact ⟨_, List.mem_append_right _ List.mem_cons_self, rfl, rfl, rfl, rfl, rfl, rfl⟩
+
+/-- a tape as a standard tar writer produces it: no record carries STFS PAX records -/
+def PlainTape (t : Tape) : Prop := ∀ it ∈ t, match it with | .recd h _ _ _ => h.pax = [] | .trailer => True
+
+/-- along the rebuild: no two members collide on the key they are stored under (name after
+    `getSanitizedPath` at that moment, link name).  Decidable, evaluated on the run. -/
+def freshAlong (p : Idx) (B : Nat) : Tape → Bool
+  | [] => true
+  | .trailer :: rest => freshAlong p (B + 2) rest
+  | .recd h hb st _ :: rest =>
+    !hasKey p.rows (sanitize p h.name).2 h.linkname &&
+    freshAlong (p.upsertHeader (Idx.mkRow h (posOfBlock 20 B).recd (posOfBlock 20 B).blk (posOfBlock 20 B).recd (posOfBlock 20 B).blk) false)
+      (B + hb + blocksOf st) rest
+
+/-- the rows the members get: one per record, in tape order, at the record's own position,
+    live, with the record's size and attributes, under the sanitised name -/
+def memberRows (p : Idx) (B : Nat) : Tape → List Row
+  | [] => []
+  | .trailer :: rest => memberRows p (B + 2) rest
+  | .recd h hb st _ :: rest =>
+    let pos := posOfBlock 20 B
+    let r : Row := Idx.mkRow { h with name := (sanitize p h.name).2 } pos.recd pos.blk pos.recd pos.blk
+    r :: memberRows (p.upsertHeader (Idx.mkRow h pos.recd pos.blk pos.recd pos.blk) false) (B + hb + blocksOf st) rest
+
+/-- (3′) Every member is listed: the rebuild of an archive written by a standard tar writer
+    (any mix of records and end-of-archive markers, any header-block counts, i.e. any tar
+    format) whose members do not collide succeeds and adds exactly one live row per member, in
+    tape order, at the member's own position, with its size and attributes. -/
+theorem every_member_gets_its_row (t : Tape) (hp : PlainTape t) :
+    ∀ (p : Idx) (B i : Nat), freshAlong p B t = true →
+      (indexLoopIdeal {} false 0 .tape p B i t).2 = none ∧
+      (indexLoopIdeal {} false 0 .tape p B i t).1.rows = p.rows ++ memberRows p B t := by
+  induction t with
+  | nil => intro p B i _; simp [indexLoopIdeal, memberRows]
+  | cons it rest ih =>
+    intro p B i hf
+    have hrest : PlainTape rest := fun x hx => hp x (List.mem_cons_of_mem _ hx)
+    cases it with
+    | trailer =>
+      simp only [freshAlong] at hf
+      simp only [indexLoopIdeal, memberRows]
+      exact ih hrest p (B + 2) i hf
+    | recd h hb st d =>
+      have hpax : h.pax = [] := hp _ List.mem_cons_self
+      simp only [freshAlong, Bool.and_eq_true, Bool.not_eq_true'] at hf
+      obtain ⟨hkey, hf'⟩ := hf
+      have hrec := foreign_record_is_upsert p (posOfBlock 20 B) h hpax false
+      have hrs : ({} : Cfg).rs = 20 := rfl
+      simp only [indexLoopIdeal, Nat.zero_le, ge_iff_le, if_true, Subst.header, hrs, hrec, memberRows]
+      have hup : (p.upsertHeader (Idx.mkRow h (posOfBlock 20 B).recd (posOfBlock 20 B).blk (posOfBlock 20 B).recd (posOfBlock 20 B).blk) false).rows =
+          p.rows ++ [Idx.mkRow { h with name := (sanitize p h.name).2 } (posOfBlock 20 B).recd (posOfBlock 20 B).blk (posOfBlock 20 B).recd (posOfBlock 20 B).blk] := by
+        unfold Idx.upsertHeader
+        simp only [Bool.false_eq_true, if_false, Idx.mkRow]
+        have e : hasKey (sanitize p h.name).1.rows (sanitize p h.name).2 h.linkname = false := by
+          rw [Idx.sanitize_rows]; exact hkey
+        generalize hs : sanitize p h.name = sp at e ⊢
+        obtain ⟨p', n⟩ := sp
+        simp only at e ⊢
+        have hr' : p'.rows = p.rows := by
+          have := Idx.sanitize_rows p h.name
+          rw [hs] at this; exact this
+        rw [hr'] at e
+        simp [Row.name, Row.linkname, e, hr']
+      obtain ⟨i1, i2⟩ := ih hrest _ (B + hb + blocksOf st) (i + 1) hf'
+      refine ⟨i1, ?_⟩
+      rw [i2, hup, List.append_assoc]
+      rfl
+
+/-- non-vacuity: the freshness guard holds on a concrete archive, and the rows are as stated -/
+example :
+    let t : Tape := [.recd { typeflag := tfDir, name := (n!"./") } 1 0 [],
+                     .recd { typeflag := tfDir, name := (n!"./d/") } 1 0 [],
+                     .recd { name := (n!"./d/f"), size := 700 } 3 700 [], .trailer, .trailer]
+    freshAlong {} 0 t = true ∧
+    ((memberRows {} 0 t).map (fun r => (r.name, r.recd, r.blk, r.hdr.size, r.deleted))) =
+      [([], 0, 0, 0, false), ((n!"d"), 0, 1, 0, false), ((n!"d/f"), 0, 2, 700, false)] := by decide
 
 /-- (4) Files later added through the filesystem coexist with the original members and survive
     a rebuild: rebuilding `foreign ++ later` is the rebuild of `foreign` continued over `later`
